@@ -35,7 +35,8 @@ Inductive case :=
   (* several calls on the SAME objects: x = the encoded rows (a ragged array or the sequence column of a SequenceEntry,
      built once), r = a kept get_reverse_complement(x).  Each step is (kind, observation):
      0 = x read again, 1 = translate(x), 2 = get_reverse_complement(x) or r read again, 3 = translate(r),
-     4 = get_reverse_complement(r).  The property: operands are unchanged, every result is the result on a fresh copy. *)
+     4 = get_reverse_complement(r), 5 / 6 = get_reverse_complement / translate of ANOTHER object b holding the same rows in
+     reverse order (same encoding, same total size; results of earlier calls are kept across these).  The property: operands are unchanged, every result is the result on a fresh copy. *)
 | CSeq (rows : list (list Z)) (steps : list (Z * obs)).
 
 Definition strand_known (iv : Z * Z * Z) : bool := (iv_strand iv =? 43) || (iv_strand iv =? 45).
@@ -52,12 +53,16 @@ Definition seq_model (rows : list (list Z)) (k : Z) : result (list (list Z)) :=
   else if k =? 1 then model_translate rows
   else if k =? 2 then model_revcomp complements 0 rows
   else if k =? 3 then match model_revcomp complements 0 rows with Ok r => model_translate r | Err c => Err c end
+  else if k =? 5 then model_revcomp complements 0 (rev rows)
+  else if k =? 6 then model_translate (rev rows)
   else model_revcomp2 complements 0 rows.
 Definition seq_spec (rows : list (list Z)) (k : Z) : list (list Z) :=
   if k =? 0 then rows
   else if k =? 1 then map spec_translate rows
   else if k =? 2 then map spec_revcomp rows
   else if k =? 3 then map spec_translate (map spec_revcomp rows)
+  else if k =? 5 then map spec_revcomp (rev rows)
+  else if k =? 6 then map spec_translate (rev rows)
   else rows.
 
 (* Biopython (second oracle) agrees with the Spec tables on this case's input *)
